@@ -23,6 +23,33 @@ type c03WriteCase struct {
 	Indent  string  `json:"indent"` // "default" = no option given
 }
 
+var ttmlForeignIDs = map[string]string{"s0": "1", "s1": "2nd", "a": "-a", "B": ".B", "_x": "3_x", "s10": "10", "r0": "0", "bottom": "-bottom", "top": ".top"}
+
+func renameTTMLIDs(d *ttmlDoc) {
+	ren := func(p *string) {
+		if n, ok := ttmlForeignIDs[*p]; ok {
+			*p = n
+		}
+	}
+	for i := range d.Styles {
+		ren(&d.Styles[i].ID)
+		ren(&d.Styles[i].Ref)
+	}
+	for i := range d.Regions {
+		ren(&d.Regions[i].ID)
+		ren(&d.Regions[i].Ref)
+	}
+	for i := range d.Cues {
+		ren(&d.Cues[i].Region)
+		ren(&d.Cues[i].Style)
+		for j := range d.Cues[i].Lines {
+			for k := range d.Cues[i].Lines[j] {
+				ren(&d.Cues[i].Lines[j][k].Style)
+			}
+		}
+	}
+}
+
 func init() {
 	register("c03read", checkC03Read)
 	register("c03write", checkC03Write)
@@ -262,6 +289,12 @@ func TestC03(t *testing.T) {
 		c := c03WriteCase{Doc: genTTMLDoc(rt, true), Indent: rapid.SampledFrom([]string{"default", "", "\t", "  "}).Draw(rt, "indentopt"), Foreign: rapid.IntRange(0, 2).Draw(rt, "foreign") == 0}
 		addEmptyLines(rt, &c.Doc)
 		nt, ls := c03Labels(c.Doc, nil)
+		if rapid.IntRange(0, 3).Draw(rt, "foreignids") == 0 {
+			// identifiers as other formats have them (a leading digit, '-' or '.'): not what xml:id should hold, yet
+			// the list's own identifiers, and every reference has to keep naming its definition
+			renameTTMLIDs(&c.Doc)
+			ls = append(ls, "ids-not-ncnames")
+		}
 		ev.Case(nt, fmt.Sprintf("w%v", c), append(ls, "write")...)
 		if nt && len(c.Doc.Cues) <= 2 {
 			ev.Sample("write", c.Doc)
